@@ -1,6 +1,7 @@
 package main
 
 import (
+	"go/constant"
 	"fmt"
 	"go/ast"
 	"go/token"
@@ -140,56 +141,133 @@ func errorTypesOf(p *Program, pk *packages.Package) []*errTypeInfo {
 }
 
 func ruleAErrIs(p *Program, r *Reporter) {
-	exported := map[string]bool{}
-	for _, n := range p.Root.Types.Scope().Names() {
-		if v, ok := p.Root.Types.Scope().Lookup(n).(*types.Var); ok && isErrorType(v.Type()) && v.Exported() {
-			exported[n] = true
-		}
+	sentinels := exportedSentinels(p)
+	if len(sentinels) == 0 {
+		r.Unknown(token.NoPos, "exported sentinels", "no exported Err* variable of type error in the root package")
+		return
 	}
 	used := map[string][]string{}
+	// every public error type: no Unwrap; matches exactly one exported sentinel (by interpreting errors.Is on a value of the type)
 	for _, ei := range errorTypesOf(p, p.Root) {
 		key := "jmespath." + ei.name
-		switch {
-		case ei.unwrap != nil:
+		if ei.unwrap != nil {
 			r.Bad(ei.unwrap.Pos(), key, "public error type has an Unwrap method: errors.Is could match a second category through the wrapped error")
-		case ei.isDecl == nil:
-			r.Bad(ei.pos, key, "public error type has no Is method: it matches none of the exported categories")
-		case !ei.isOK:
-			r.Unknown(ei.isDecl.Pos(), key, "Is method is not of the form `return target == Sentinel`")
-		case len(ei.sentinels) != 1:
-			r.Bad(ei.isDecl.Pos(), key, "Is matches "+fmt.Sprint(len(ei.sentinels))+" sentinels ("+strings.Join(ei.sentinels, ", ")+"); the contract is exactly one")
-		case !exported[ei.sentinels[0]]:
-			r.Bad(ei.isDecl.Pos(), key, "Is matches "+ei.sentinels[0]+" which is not an exported sentinel of the package")
+			continue
+		}
+		obj, _ := p.Root.Types.Scope().Lookup(ei.name).(*types.TypeName)
+		if obj == nil {
+			continue
+		}
+		d, e := newErrDom(p)
+		st := d.base.clone()
+		var val AV
+		var dyn types.Type = types.NewPointer(obj.Type())
+		if ms := p.SSA.MethodSets.MethodSet(obj.Type()); ms.Lookup(nil, "Error") != nil {
+			dyn = obj.Type()
+			val = avIface{dyn: dyn, v: avSym{id: e.fresh(), tag: "errval"}}
+		} else {
+			val = avIface{dyn: dyn, v: avPtr{e.NewObj("err", obj.Type()), ""}}
+		}
+		var yes []string
+		undecided := false
+		for _, g := range sentinels {
+			tv, found := st.load(avPtr{e.globalObj(g), ""})
+			if !found {
+				tv = d.Load(e, st, avPtr{e.globalObj(g), ""}, derefType(g.Type()))
+			}
+			res := d.errorsIs(e, st, val, tv, 0)
+			if c, ok := res.(avConst); ok {
+				if constant.BoolVal(c.v) {
+					yes = append(yes, g.Name())
+				}
+			} else {
+				undecided = true
+			}
+		}
+		switch {
+		case undecided:
+			r.Trivial(ei.pos, key, "the category is carried by the value (a field), not by the type: decided per mapped error by A-ERRMAP")
+		case len(yes) == 0:
+			r.Bad(ei.pos, key, "public error type matches none of the exported categories under errors.Is")
+		case len(yes) > 1:
+			r.Bad(ei.pos, key, "errors.Is matches "+fmt.Sprint(len(yes))+" sentinels ("+strings.Join(yes, ", ")+"); the contract is exactly one")
 		default:
-			used[ei.sentinels[0]] = append(used[ei.sentinels[0]], ei.name)
-			r.OK(ei.isDecl.Pos(), key, "Is matches exactly "+ei.sentinels[0])
+			used[yes[0]] = append(used[yes[0]], ei.name)
+			r.OK(ei.pos, key, "errors.Is matches exactly "+yes[0])
 		}
 	}
-	var names []string
-	for n := range exported {
-		names = append(names, n)
+	// every exported sentinel is the category of something the mappers can return
+	parseM, evalM := errorMappers(p)
+	collect := func(mappers []*ssa.Function, pkgs ...*packages.Package) {
+		seen := map[string]bool{}
+		for _, fn := range p.ReachFuncs(pkgs...) {
+			for _, b := range fn.Blocks {
+				for _, in := range b.Instrs {
+					n := ""
+					switch x := in.(type) {
+					case *ssa.MakeInterface:
+						if isErrorType(x.Type()) {
+							n = typeShort(x.X.Type())
+						}
+					case *ssa.UnOp:
+						if g, ok := x.X.(*ssa.Global); ok && x.Op == token.MUL && isErrorType(x.Type()) && g.Pkg != nil && usedAsValue(x) {
+							n = g.Pkg.Pkg.Name() + "." + g.Name()
+						}
+					}
+					if n == "" || seen[n] {
+						continue
+					}
+					seen[n] = true
+					for _, m := range mappers {
+						if _, cats, why := classifyError(p, m, n); why == "" {
+							for _, c := range cats {
+								used[c] = append(used[c], n)
+							}
+						}
+					}
+				}
+			}
+		}
 	}
-	sort.Strings(names)
-	for _, n := range names {
+	collect(parseM, p.Lexer, p.Parser)
+	collect(evalM, p.Eval)
+	for _, g := range sentinels {
+		n := g.Name()
 		if len(used[n]) == 0 {
-			r.Bad(token.NoPos, "sentinel "+n, "exported sentinel is matched by no error type")
+			r.Bad(g.Pos(), "sentinel "+n, "exported sentinel is the category of no error the library can return")
 		} else {
-			r.Trivial(token.NoPos, "sentinel "+n, "matched by "+strings.Join(used[n], ", "))
+			r.Trivial(g.Pos(), "sentinel "+n, "category of "+strings.Join(uniqStrings(used[n]), ", "))
 		}
 	}
 	for _, ei := range errorTypesOf(p, p.Eval) {
 		key := "evaluator." + ei.name
 		switch {
 		case ei.isDecl == nil:
-			r.Trivial(ei.pos, key, "no Is method (falls to the evaluation-failed category)")
+			r.Trivial(ei.pos, key, "no Is method of its own (category decided by A-ERRMAP)")
 		case !ei.isOK:
-			r.Unknown(ei.isDecl.Pos(), key, "Is method is not of the form `return target == Sentinel`")
+			r.Trivial(ei.isDecl.Pos(), key, "Is method of another form (category decided by A-ERRMAP)")
 		case len(ei.sentinels) != 1:
 			r.Bad(ei.isDecl.Pos(), key, "Is matches several internal sentinels: "+strings.Join(ei.sentinels, ", "))
 		default:
 			r.OK(ei.isDecl.Pos(), key, "Is matches exactly "+ei.sentinels[0])
 		}
 	}
+}
+
+func uniqStrings(in []string) []string {
+	seen := map[string]bool{}
+	var out []string
+	for _, s := range in {
+		if !seen[s] {
+			seen[s] = true
+			out = append(out, s)
+		}
+	}
+	sort.Strings(out)
+	if len(out) > 6 {
+		out = append(out[:6], "…")
+	}
+	return out
 }
 
 // ---------------------------------------------------------------- A-ERRMAP
@@ -357,18 +435,22 @@ func ruleAErrMap(p *Program, r *Reporter) {
 			fnName := fn.Name()
 			for _, s := range srcs {
 				key := side + " " + s.name
-				pub, ok := simulateMapper(fn, s.name, internalIs)
-				if !ok {
-					r.Unknown(s.pos, key, fnName+": decision chain not understood at "+pub)
+				pub, cats, why := classifyError(p, fn, s.name)
+				if why != "" {
+					r.Unknown(s.pos, key, fnName+": "+why)
 					continue
 				}
-				sent := pubSentinel[pub]
 				want, have := expect[s.name]
 				if !have {
 					want = dflt
 				}
-				if sent == "" {
-					r.Bad(s.pos, key, fmt.Sprintf("%s maps it to %s which matches no exported sentinel", fnName, pub))
+				if len(cats) != 1 || cats[0] == "(none)" {
+					r.Bad(s.pos, key, fmt.Sprintf("%s maps it to %s which matches %v: an error must match exactly one exported category", fnName, pub, cats))
+					continue
+				}
+				sent := cats[0]
+				if side == "eval" && (sent == "ErrSyntax" || sent == "ErrInvalidArity" || sent == "ErrUnknownFunction") {
+					r.Bad(s.pos, key, fmt.Sprintf("an evaluation error is reported as the static category %s", sent))
 					continue
 				}
 				if sent != want {
@@ -532,6 +614,11 @@ func ruleAPanic(p *Program, r *Reporter) {
 			for _, in := range b.Instrs {
 				switch x := in.(type) {
 				case *ssa.Panic:
+					// the misuse checks the compiler's lowering of `for x := range iteratorFunc` inserts (blocks named
+					// yield-invalid / rangefunc.*): not written by anyone, not reachable with the iterators of this package
+					if bc := x.Block().Comment; bc == "yield-invalid" || strings.HasPrefix(bc, "rangefunc.") {
+						continue
+					}
 					explicit++
 					if fn.Name() == "MustCompile" && p.PkgOf(fn) == p.Root {
 						r.OK(x.Pos(), name+" panic", "documented panic of MustCompile")
@@ -588,7 +675,25 @@ func factExcludesNaN(cond ssa.Value, truth bool, recv ssa.Value) bool {
 			return factExcludesNaN(c.X, !truth, recv)
 		}
 	case *ssa.Phi:
-		// short-circuit `a || b` lowered to a phi of constants and b: only handled through the nested Ifs
+		// a boolean computed by a short-circuit expression (`ok := !d.IsNaN() && ...`): when the phi is known true,
+		// it came through an edge whose value is not the constant false; every such edge must exclude NaN, either by
+		// the facts of the predecessor it comes from or by the edge value itself
+		if !truth {
+			return false
+		}
+		any := false
+		for i, e := range c.Edges {
+			if k, ok := e.(*ssa.Const); ok && k.Value != nil && k.Value.Kind() == constant.Bool && !constant.BoolVal(k.Value) {
+				continue
+			}
+			any = true
+			pred := c.Block().Preds[i]
+			if nanExcluded(pred, recv) || factExcludesNaN(e, true, recv) {
+				continue
+			}
+			return false
+		}
+		return any
 	}
 	return false
 }
